@@ -17,3 +17,9 @@ pub(crate) const PATH_PERCENT_ENCODE_SET: &AsciiSet = &CONTROLS
     .add(b'{')
     .add(b'}')
     .add(b'/');
+
+/// The percent-encode set for a single value in the query of a Matrix URI: the path
+/// percent-encode set above + `&`, `+` and `=`, which have a meaning in the
+/// `application/x-www-form-urlencoded` syntax that is used to parse the query.
+pub(crate) const QUERY_VALUE_PERCENT_ENCODE_SET: &AsciiSet =
+    &PATH_PERCENT_ENCODE_SET.add(b'&').add(b'+').add(b'=');
